@@ -429,6 +429,40 @@ def registry_events():
     return events
 
 
+def signalling_probes():
+    """the two signalling cipher suite values inside a client hello: every combination of 0x00ff / 0x5600 present on the wire
+    (as list members or as the flags of the object) survives parse and compose"""
+    import attr
+    from .. import objects
+    from ..api import call
+    from cryptoparser.tls.subprotocol import TlsHandshakeClientHello
+    events = []
+    temps = [o for c, o, w in objects.templates() if c is TlsHandshakeClientHello][:2]
+    for obj in temps:
+        for fb in (False, True):
+            for rn in (False, True):
+                o0, var, _ = call(lambda x: attr.evolve(x, fallback_scsv=fb, empty_renegotiation_info_scsv=rn), obj)
+                if o0 != 'ok':
+                    continue
+                o1, w, _ = call(lambda v: bytes(v.compose()), var)
+                o2, back, _ = call(TlsHandshakeClientHello.parse_exact_size, w) if o1 == 'ok' else ('-', None, None)
+                o3, w2, _ = call(lambda v: bytes(v.compose()), back) if o2 == 'ok' else ('-', None, None)
+                want = ([b'\x56\x00'] if fb else []) + ([b'\x00\xff'] if rn else [])
+                ok = o3 == 'ok' and w2 == w and bool(back.fallback_scsv) == fb and bool(back.empty_renegotiation_info_scsv) == rn
+                if ok:
+                    # the suites list on the wire: after version(2) random(32) session id
+                    body = w[4:]
+                    p = 2 + 32
+                    p += 1 + body[p]
+                    n = int.from_bytes(body[p:p + 2], 'big')
+                    suites = [body[p + 2 + i:p + 4 + i] for i in range(0, n, 2)]
+                    ok = all(x in suites for x in want) and (fb or b'\x56\x00' not in suites) and (rn or b'\x00\xff' not in suites)
+                events.append({'ev': 'probe', 'enum': 'TlsHandshakeClientHello.cipher_suites(signalling values)',
+                               'code': 'fallback=%s,renegotiation=%s' % (fb, rn), 'known': True,
+                               'outcome': 'member' if ok else 'altered', 'listoutcome': '-', 'wire': (w or b'').hex()[:200]})
+    return events
+
+
 def run(rep):
     thorough = rep.tier == 'thorough'
     corpus.import_all()
@@ -439,7 +473,7 @@ def run(rep):
         for t in e['table']:
             rep.case('registry|%s|%s' % (e['enum'], t['name']))
     events += reg
-    hp = holder_probes(rep, thorough)
+    hp = holder_probes(rep, thorough) + signalling_probes()
     rep.extra['holder_field_probes'] = len(hp)
     for e in hp:
         rep.case('holder|%s|%s' % (e['enum'], e['code']))
